@@ -1112,8 +1112,33 @@ UNWRAPS = {"core::option::Option::unwrap", "core::option::Option::expect", "core
            "core::result::Result::expect", "core::result::Result::unwrap_err", "core::result::Result::expect_err"}
 
 
+# every `unwrap` / `expect` outside the phase contracts, with the reason why the Option / Result is never empty / an error for
+# any input; keyed by function and by the shape of the expression (locals as $1, $2 ..), so a rename keeps the key
+UNWRAP_REVIEWED = {
+    ("error::write_source_line_from_file_at", "$1.unwrap()"): "a line of a file that was read as UTF-8 when it was compiled",
+    ("Compiler::file_from_namespace", "self.namespace_id_to_file.get(&$1).unwrap()"): "namespace ids are handed out from this very map",
+    ("Resolver::add_help", "$3.help(self, $1, $2).unwrap_err()"): "called with an Err built on the spot (raise, then add help): help() keeps it an Err",
+    ("Resolver::add_help_no_span", "$2.help_no_span($1).unwrap_err()"): "called with an Err built on the spot: help_no_span() keeps it an Err",
+    ("Resolver::find_similar_name", "IntoIterator::into_iter([$1, $2]).min().unwrap()"): "the minimum of a two-element array",
+    ("Resolver::namespace_type_list", "self.file_to_namespace.get($1).unwrap()"): "every Name::Namespace entry names a file registered in file_to_namespace by resolve()",
+    ("Resolver::resolve_global_variables", "self.namespaces.get_mut(&$1).unwrap()"): "every module got its table in insert_namespace_and_add_definitions, the pass before",
+    ("TypeChecker::expression", "$2.last().map(|branch| $1.condition.is_some()).unwrap()"): "an `if` has at least one branch (parser: if_expression pushes the first branch before any other exit)",
+    ("TypeChecker::inner_bake_type", "self.namespace_to_file.get(&$1.file_id).unwrap()"): "spans carry the file id of a module that was loaded: the map holds every loaded module",
+    ("statement::use_path", "$1.parent().unwrap()"): "the path of a source file that was opened has a parent (at least the empty path)",
+    ("sylt_parser::tree", "sylt_common::library_source($1).unwrap()"): "a FileOrLib::Lib is only made by use_path for names library_name() knows",
+    ("sylt_parser::tree", "sylt_common::library_source(\"preamble\").unwrap()"): "the preamble is compiled into the binary",
+    ("sylt_parser::tree", "$2.iter().position(|(f, _)| (*$1 Eq FileOrLib::Lib(\"preamble\"))).expect(\"Error in the preamble code\")"):
+        "with the library bundled the preamble is queued first and - being fixed text compiled into the binary - always parses, so it is in the list",
+    ("statement::statement", "From::from(&$1.trim_start_matches(\"/\").trim_end_matches(\"/\").to_string()).file_stem().unwrap()"):
+        "path() yields `/`? (identifier `/`)* identifier?; the lone `/` is rejected two lines above, every other path has an identifier segment",
+    ("statement::statement", "From::from(&$1.trim_start_matches(\"/\").trim_end_matches(\"/\").to_string()).file_stem().unwrap().to_str().unwrap()"):
+        "the segments are identifier tokens (ASCII): the stem is valid UTF-8",
+}
+
+
 def census(F, rep, contracts):
     rows = []
+    unlisted = []
     for fn in F.own_fns(CRATES):
         if fn["_path"].startswith("sylt_common::error::test"):
             continue
@@ -1134,6 +1159,12 @@ def census(F, rep, contracts):
             if kind is None:
                 continue
             status = "contract:" + contracts[id(n)] if id(n) in contracts else guarded(n, parents) or "unreviewed"
+            if status == "unreviewed" and kind.startswith("unwrap"):
+                why = UNWRAP_REVIEWED.get((last(fn["_path"], 2), _shape(n)))
+                if why:
+                    status = "reviewed:" + why
+                else:
+                    unlisted.append((last(fn["_path"], 2), _shape(n), line_of(n)))
             rows.append((fn["_crate"], last(fn["_path"], 2), kind, status, line_of(n)))
     by_status = {}
     for r in rows:
@@ -1145,6 +1176,12 @@ def census(F, rep, contracts):
            "%d explicit divergences (unreachable!/panic!/assert!) in the four crates: %d tied to a contract K1-K16, unexplained: %s" % (
                len(explicit), len(explicit) - len(un_explicit), [(r[1], r[2], r[4]) for r in un_explicit if (r[1], r[2]) not in ALLOWED_EXPLICIT] or "none"),
            sites=len(explicit))
+    for fn_, shape_, where_ in unlisted:
+        rep.ob("CENSUS", "unwrap|%s|%s" % (fn_, shape_[:90]), False,
+               "%s calls `%s`, which panics when the value is absent, and the site is neither tied to a phase contract nor in the "
+               "reviewed table (rules/c07.py UNWRAP_REVIEWED) with the reason why it cannot be absent for any input: e.g. the closest "
+               "name among the variants of an enum declared without variants (`Never :: enum end`, `Never.Ever`)" % (fn_, shape_[:90]), where_)
+    rep.ob("CENSUS", "unwraps-reviewed", not unlisted, "every unwrap / expect outside the contracts is in the reviewed table (%d unlisted)" % len(unlisted))
     rep.ob("CENSUS", "sites", True, "%d panic-capable sites: %s" % (len(rows), {k: len(v) for k, v in sorted(by_status.items())}), sites=len(rows))
     rep.floor("CENSUS", "panic-capable sites", len(rows), 75)
     for r in rows:
